@@ -184,6 +184,13 @@ let op_submodule_run = function
       "OK\t" ^ S.concat ";" (go Submodule.AfterHunkHeader (lines_of_arg lines))
   | _ -> "BADARGS"
 
+(* file_url fmt path line : the target of a file hyperlink; line = "-" for a link without a line number *)
+let op_file_url = function
+  | [ fmt; path; line ] ->
+      let ln = if line = "-" then None else Some (n_of_int (int_of_string line)) in
+      "OK\t" ^ hex_of_text (Links.file_url (text_of_hex fmt) (text_of_hex path) None ln)
+  | _ -> "BADARGS"
+
 (* ---- styles (C12, C09) *)
 let color_of_string w =
   if w = "normal" || w = "-" then None
@@ -565,6 +572,7 @@ let dispatch = function
   | "sbs_adjust" :: args -> op_sbs_adjust args
   | "ingest" :: args -> op_ingest args
   | "submodule_run" :: args -> op_submodule_run args
+  | "file_url" :: args -> op_file_url args
   | "blame_run" :: args -> op_blame_run args
   | "blame_spec" :: args -> op_blame_spec args
   | "ping" :: _ -> "pong"
